@@ -41,11 +41,7 @@ def run(ck, ctx):
                   "the table registry must be addressed only through get_table_id(schema, table), which normalises quoting and case of "
                   "both components; any other key makes ALTER / INDEX miss or hit the wrong table", f.loc(node))
     ck.floor("T-NORM.registry", 2)
-    gti = m.func("simple_ddl_parser.utils:get_table_id")
-    src = ast.unparse(gti.node)
-    ck.ob("T-NORM.registry", "get_table_id normalises the table name and the schema name",
-          "table_name = normalize_name(table_name)" in src and "schema_name = normalize_name(schema_name)" in src and
-          "return (table_name, schema_name)" in src, "", gti.loc())
+    _check_table_id(ck, ctx)
     # (that a failed look-up raises and never falls back to another table is decided semantically: O-final explores targets that no
     # table matches - unqualified and schema-qualified - and requires the abstractly evaluated formatter to raise)
     for fname, want in (("add_alter_to_table", ("statement['schema']", "statement['alter_table_name']")),
@@ -61,6 +57,47 @@ def run(ck, ctx):
                        "the alter section is checked to record the declared names / values (its exact layout is not pinned by the property)",
                        "quick tier: every way of writing the target x three representative actions, every action x the plainly written "
                        "targets; thorough tier: the full product"]
+
+
+def _check_table_id(ck, ctx):
+    """get_table_id evaluated (E3 interpreter) on pairs of (schema, table) spellings: two spellings of one name - delimited in any of
+    the three styles or plain, in any letter case - give the same id, different names give different ids, and a missing schema never
+    equals a given one; however the function and normalize_name are written"""
+    from ..pyabs import Interp, Obj, PyRaise, LexUnknown, NonUniform
+    m = ctx.model
+    gti = m.func("simple_ddl_parser.utils:get_table_id")
+    same = [("users", "Users"), ("users", '"users"'), ("users", "`USERS`"), ("users", "[Users]"), ('"Order Items"', "`order items`"),
+            ("t_1", '"T_1"')]
+    differ = [("users", "user"), ("users", "users2"), ("a_b", "ab"), ('"a b"', "ab")]
+    schemas = [(None, None), ("dbo", "DBO"), ("dbo", "[dbo]"), ('"My Schema"', "`my schema`")]
+
+    def call(schema, table):
+        try:
+            return Interp(m, ctx.grammar.tokens_ns, Obj()).call_func(gti, [schema, table])
+        except PyRaise as pr:
+            return ("raises", type(pr.exc).__name__)
+        except (LexUnknown, NonUniform) as e:
+            raise AnalysisError(f"get_table_id outside the interpreted subset: {e}")
+    n = 0
+    for s1, s2 in schemas:
+        for a, b in same:
+            n += 1
+            ia, ib = call(s1, a), call(s2, b)
+            ck.ob("T-NORM.registry", f"get_table_id({s1!r}, {a!r}) == get_table_id({s2!r}, {b!r})", ia == ib and not (isinstance(ia, tuple) and ia[:1] == ("raises",)),
+                  f"two spellings of one table must address one registry entry: {ia!r} vs {ib!r}", gti.loc())
+        for a, b in differ:
+            n += 1
+            ia, ib = call(s1, a), call(s2, b)
+            ck.ob("T-NORM.registry", f"get_table_id({s1!r}, {a!r}) != get_table_id({s2!r}, {b!r})", ia != ib,
+                  f"different table names must not share a registry entry: {ia!r} vs {ib!r}", gti.loc())
+    for a, _b in same[:3]:
+        n += 1
+        ia, ib = call(None, a), call("dbo", a)
+        ck.ob("T-NORM.registry", f"get_table_id(None, {a!r}) != get_table_id('dbo', {a!r})", ia != ib,
+              f"a table without schema and a table of the same name in a schema are different tables: {ia!r} vs {ib!r}", gti.loc())
+        ia, ib = call("dbo", a), call("app", a)
+        ck.ob("T-NORM.registry", f"get_table_id('dbo', {a!r}) != get_table_id('app', {a!r})", ia != ib,
+              f"equally named tables of two schemas are different tables: {ia!r} vs {ib!r}", gti.loc())
 
 
 def _is_table_id(f, key):
